@@ -312,7 +312,7 @@ not compile).  Regenerated from the source text by every check run (`tools/spans
 theorem source_shape :
     (Src.tlsConnectorShape ++ Src.tlsResolverShape ++ Src.tlsTcpConnectorShape ++ Src.tlsConnShapeRustls020 ++
       Src.tlsConnShapeRustls021 ++ Src.tlsConnShapeRustls022 ++ Src.tlsConnShapeRustls023 ++
-      Src.tlsConnShapeOpenssl ++ Src.tlsConnShapeNativeTls).all (·.2) = true ∧
+      Src.tlsConnShapeOpenssl ++ Src.tlsConnShapeNativeTls ++ Src.tlsConnectionShape).all (·.2) = true ∧
     (Src.tlsConnectorShape.map (·.1)).contains "new_service_is_service" = true := by decide
 
 /-! ### TLS connector step -/
@@ -388,6 +388,14 @@ example : tlsConnect (fun n => n != "") (fun (c : List String) n => c.contains n
     = .handshakeError "b.test" := by decide
 example : tlsConnect (fun n => n != "") (fun (c : List String) n => c.contains n) (hostOfString ":443") ["a.test"]
     = .invalidInput := by decide
+/-- the connector hands over `localhost..` as it is: rustls' name syntax rejects it (`InvalidInput`), a library that
+takes any name finds no certificate for `localhost` covering it -/
+example : tlsConnect validDnsName (fun (c : List String) n => covers (fun _ => false) (certNamesFor "r" c) (verifiedName "r" n))
+    (hostOfString "localhost..") ["localhost"] = .invalidInput := by decide
+example : tlsConnect (fun _ => true) (fun (c : List String) n => covers (fun _ => false) (certNamesFor "o" c) (verifiedName "o" n))
+    (hostOfString "localhost.") ["localhost"] = .handshakeError "localhost." := by decide
+example : tlsConnect validDnsName (fun (c : List String) n => covers (fun _ => false) (certNamesFor "r" c) (verifiedName "r" n))
+    (hostOfString "localhost.") ["localhost"] = .established "localhost." := by decide
 /-- covered, then not covered, then invalid, then covered again — on one service -/
 example : tlsConnectMany (fun n => n != "") (fun (c : List String) n => c.contains n)
     [(hostOfString "a.test:443", ["a.test"]), (hostOfString "b.test", ["a.test"]), (hostOfString ":1", ["a.test"]), (hostOfString "a.test", ["a.test"])]
